@@ -122,6 +122,25 @@ def hist (f : Stairs Rat) (bins : List (Rat × Rat)) (closed : Side) (stat : His
     let dot := ((vals.zip bins).map fun (x, lr) => x * (lr.2 - lr.1)).sum
     vals.map fun x => vdiv (some x) (some dot)
 
+def ratFloor (q : Rat) : Int := q.num / (q.den : Int)
+def ratCeil (q : Rat) : Int := -ratFloor (-q)
+
+/-- consecutive integer breaks `a, a+1, …` (`n+1` of them) as bins -/
+def intBins (a : Int) : Nat → List (Rat × Rat)
+  | 0 => []
+  | n + 1 => ((a : Rat), ((a + 1 : Int) : Rat)) :: intBins (a + 1) n
+
+/-- the `bins="unit"` default of `hist`: unit-length bins covering the range of values -/
+def unitBins (f : Stairs Rat) (closed : Side) : List (Rat × Rat) :=
+  match (valueSums f).map (·.1) with
+  | [] => []
+  | v :: r =>
+    let lo := v
+    let hi := (v :: r).getLast!
+    match closed with
+    | .left => intBins (ratFloor lo) ((ratFloor hi + 1 - ratFloor lo).toNat)
+    | .right => intBins (ratCeil lo - 1) ((ratCeil hi - (ratCeil lo - 1)).toNat)
+
 /-! ## windows: `values_in_range`, `min`, `max` -/
 
 /-- table from `util._get_lims`: (function closed, interval closed) ↦ (lower bisect side, upper bisect side) -/
